@@ -20,7 +20,9 @@ META = {
     "note": "Trusted: Coq kernel, extraction, the OCaml driver (bit pattern -> integer scaling, tolerance arithmetic, sample grids, generic-position filter), "
             "the harness. Floating-point tolerances are stated constants: volume/area 2(n+16)u*sum of term magnitudes (covers any summation order); MinGap "
             "|g^2-d^2| <= 2^-40 (S+L)^2; ray hits within 2^-36 S of segment and surface. Coverage of inputs is what the generator reaches. "
-            "The pruning by box gaps inside mingap2 is justified by box_gap2_lower (integer homogeneous form) but not linked to the Q-valued fold by a theorem.",
+            "The pruning by box gaps inside mingap2 is justified by box_gap2_lower (integer homogeneous form) but not linked to the Q-valued fold by a theorem. "
+            "Corpus: key mingap-small-triangles-zero (MinGap returns 0 for separated solids whose triangles have |n|^2 <= 1e-15: absolute threshold in tri_dist.h; "
+            "candidate fix hooks/fix_C18_1.patch). Slice is also judged at the exact height of an exported vertex.",
 }
 
 R4 = lambda rng, a, b: repr(round(rng.uniform(a, b), 4))
@@ -50,9 +52,6 @@ def xform(rng, lattice=False):
         t.append("rot %s %s %s" % (R4(rng, -180, 180), R4(rng, -180, 180), R4(rng, -180, 180)))
     if rng.random() < .4:
         t.append("sc %s %s %s" % (R4(rng, .5, 1.5), R4(rng, .5, 1.5), R4(rng, .5, 1.5)))
-    if rng.random() < .15:
-        k = rng.choice([-40, -20, 20, 40])
-        t.append("sc %r %r %r" % (2.0 ** k, 2.0 ** k, 2.0 ** k))
     t.append("tr %s %s %s" % (R4(rng, -1, 1), R4(rng, -1, 1), R4(rng, -1, 1)))
     return " ".join(t)
 
@@ -89,6 +88,7 @@ def gen_queries(rng, scale=1.0):
     for _ in range(3):
         q.append("wind %s" % " ".join(repr(round(rng.uniform(-1.2, 1.2), 3) * scale) for _ in range(3)))
     q.append("slice %r" % (round(rng.uniform(-.8, .8), 3) * scale))
+    q.append("slicev %d" % rng.randrange(1000))
     q.append("proj")
     q.append("decomp")
     return " ".join(q)
@@ -100,7 +100,7 @@ def gen_gap(rng):
     b = ("cube %d %d %d 0" % (rng.randrange(1, 3), rng.randrange(1, 3), rng.randrange(1, 3))) if lat else shape(rng, True)
     if lat and rng.random() < .3:
         a = "lshape 2 1 1"
-    rel = rng.choice(["separated", "separated", "touching", "overlapping", "nested"])
+    rel = rng.choice(["separated", "separated", "separated", "separated", "touching", "overlapping", "nested"])
     if rel == "separated":
         d = rng.choice([.25, .5, 1.0, 1.75, 3.0]) if lat else round(rng.uniform(.05, 3), 3)
         sh = "tr %r %r %r" % ((2 + d) if lat else (5.3 + d), rng.randrange(-2, 3) / 2.0 if lat else round(rng.uniform(-1, 1), 3),
@@ -115,7 +115,11 @@ def gen_gap(rng):
     else:
         a, b = "cube 6 6 6 1", b
         sh = "sc 0.25 0.25 0.25 tr %s %s %s" % (R4(rng, -1, 1), R4(rng, -1, 1), R4(rng, -1, 1))
-    ls = sorted(set([rng.choice([.1, .3, .6, 1.2, 2.0, 4.0]), rng.choice([.2, .75, 1.5, 2.5, 8.0]), 10.0]))
+    if rel == "separated":
+        # d approximates the true gap (exact for lattice boxes along x): search lengths below, just above, below twice, far above
+        ls = sorted(set(round(d * f, 4) for f in (.6, 1.1, 1.4, 1.9, 4.0))) if lat else [.5, 1.5, 3.0, 5.0, 8.0]
+    else:
+        ls = sorted(set([rng.choice([.1, .3, .6, 1.2, 2.0, 4.0]), rng.choice([.2, .75, 1.5, 2.5, 8.0]), 10.0]))
     return "%s %s %s ; meas gap %s" % (a, b, sh, " ".join(repr(x) for x in ls)), rel
 
 
@@ -144,11 +148,20 @@ def build_cases(cx):
         ("torus 2 0.5 12 8 rot 30 10 0 ; meas ray -4 0.1 0.05 4 0.2 0.1 ray 0 0 -3 0.1 0.2 3 wind 2 0.1 0 slice 0.1 proj decomp", "single"),
         ("sphere 1.3 16 rot 10 20 30 tr 0.1 0.2 0.3 cube 1 1 1 1 rot 5 6 7 sub ; meas ray -3 0.1 0.2 3 0.3 0.1 wind 0.9 0.1 0.1 wind 0.1 0.1 0 slice 0.33 proj decomp", "cavity"),
     ]
+    # finding: DistanceTriangleTriangleSquared's absolute degeneracy threshold (|n|^2 > 1e-15) makes MinGap return 0
+    # for solids with triangles of legs <= ~1e-4 that are a positive distance apart (vertex above a face)
+    fixed.append(("cube 0.0001 0.0001 0.0001 0 sphere 1e-05 4 tr 7e-05 2e-05 0.000111 ; meas gap 0.001", "gap-smallscale"))
+    fixed.append(("cube 0.01 0.01 0.01 0 sphere 0.001 4 tr 0.007 0.002 0.0111 ; meas gap 0.1", "gap-separated"))
     for p, k in fixed:
         cases.append((str(len(cases)), "CASE %d %s" % (len(cases), p), k))
     for _ in range(n_solid):
         p, k = gen_solid(rng)
         sc = 1.0
+        if rng.random() < .15:
+            # uniform power-of-two scale of the finished solid (mixing scales inside a Boolean only inflates its tolerance)
+            sc = 2.0 ** rng.choice([-40, -20, 20, 40])
+            p += " sc %r %r %r" % (sc, sc, sc)
+            k += "*2^k"
         cases.append((str(len(cases)), "CASE %d %s ; %s" % (len(cases), p, gen_queries(rng, sc)), k))
     for _ in range(n_gap):
         p, k = gen_gap(rng)
@@ -204,7 +217,7 @@ def run(cx):
     line_of = {c[0]: c[1] for c in cases}
     kl = lambda l: l.split()[1] if l.startswith("CASE") else None
     ko = lambda l: l.split()[1] if l.startswith("END ") else None
-    out_impl, crashes = vp.run_cases(exe, lines, kl, ko, timeout=1500)
+    out_impl, crashes = vp.run_cases(exe, lines, kl, ko, timeout=cx.pick(300, 1500))
     for cl, rc, err in crashes:
         cx.violation("query-crash", "a measurement/query crashed or hung (rc=%s): %s" % (rc, err[-200:]), {"case": cl})
     cx.log("harness done: %d cases, %d crashes" % (len(cases), len(crashes)))
@@ -258,7 +271,7 @@ def run(cx):
         elif chk == "gap":
             stats["gap"] += 1
             if not (v[1] and v[2]):
-                viol("mingap-differs-from-brute-force", cid, "MinGap differs from min(searchLength, exact minimum triangle distance), 0 when intersecting: %s" % l.split("|")[-1].strip(), l)
+                viol("mingap-small-triangles-zero" if kind.get(base) == "gap-smallscale" else "mingap-differs-from-brute-force", cid, "MinGap differs from min(searchLength, exact minimum triangle distance), 0 when intersecting: %s" % l.split("|")[-1].strip(), l)
             if v[3] or v[4]:
                 stats["gap_zero"] += 1
             else:
@@ -299,7 +312,8 @@ def run(cx):
         elif chk == "slice":
             ns, badn, sk, generic, ins = v
             stats["slice"] += 1; stats["slice_samples"] += ns - sk; stats["slice_skipped"] += sk
-            if generic and badn:
+            stats["slice_at_vertex_height"] = stats.get("slice_at_vertex_height", 0) + int(not generic)
+            if badn:
                 viol("slice-winding-differs", cid, "Slice(z): 2-D winding of the polygons differs from the solid's winding at %d of %d generic sample points" % (badn, ns - sk), l)
             if 0 < ins < ns:
                 nontriv.add(base)
